@@ -1,4 +1,5 @@
 from __future__ import print_function
+import re
 import string
 import logging
 from bisect import bisect
@@ -289,6 +290,27 @@ class SourceScope(Scope):
 
         return start
 
+    def find_alias_loc(self, alias, name, start):
+        # type: (t.Any, str, loc_t) -> loc_t
+        """Position of the name an import binds"""
+        if hasattr(alias, 'end_col_offset'):  # python 3.10+ knows where aliases are
+            if alias.asname:
+                return alias.end_lineno, alias.end_col_offset - len(alias.asname)
+            return alias.lineno, alias.col_offset
+        return self.find_id_loc(name, start)
+
+    def find_def_loc(self, name, start):
+        # type: (str, loc_t) -> loc_t
+        """Position of the name in a def or class statement starting at start"""
+        sl, col = start
+        source = '\n'.join(self.source.lines[sl-1:sl+4])
+        sep = r'(?:\s|\\\n)+'
+        match = re.compile(r'(?:async%s)?(?:def|class)%s(%s)\b' % (sep, sep, re.escape(name))).match(source, col)
+        if match:
+            pos = match.start(1)
+            return sl + source.count('\n', 0, pos), pos - source.rfind('\n', 0, pos) - 1
+        return self.find_id_loc(' ' + name, start, 1, False)
+
     def add_attr_assign(self, scope, attr, value):
         # type: (Scope, Attribute, AST) -> None
         self._attr_assigns.append((scope, attr, value))
@@ -365,7 +387,7 @@ class FuncScope(Scope, Location, Resolvable):
         else:
             fnode = node  # type: FunctionDef  # type: ignore[assignment]
             self.name = fnode.name
-            self.declared_at = top.find_id_loc(' ' + fnode.name, np(fnode), 1, False)
+            self.declared_at = top.find_def_loc(fnode.name, np(fnode))
             self.location = get_first_body_node_loc(fnode.body) or (np(fnode.body[0])[0], np(fnode)[1] + 4)
             self.decorator_list = fnode.decorator_list
 
@@ -438,7 +460,7 @@ class ClassScope(Scope, Location, Resolvable):
         # type: (Scope, ClassDef, SourceScope) -> None
         Scope.__init__(self, parent, top)
         self.name = node.name
-        self.declared_at = top.find_id_loc(' ' + node.name, np(node), 1, False)
+        self.declared_at = top.find_def_loc(node.name, np(node))
         self.location = np(node.body[0])
         self.flow = self.top.add_flow(Flow('class', self))
         self._bases = node.bases
